@@ -1,5 +1,8 @@
 CONSTANTS
   MaxC = 4
+  WithPermuted = FALSE
+  FullStart = FALSE
+  MaxViol = 1
   Faults = {"serFail", "deFail", "deCorrupt", "deDropsHidden", "jsonSloppy", "jsonDiscrete", "eqSubset", "eqNotReflexive", "eqPanics", "nondetFit"}
 SPECIFICATION Spec
 INVARIANT InvSound
